@@ -531,3 +531,70 @@ def truth(t):
     if t[0] == 'new':
         return True
     return None
+
+
+# ------------------------------------------------------------------ constant folding (pure, tiny subset)
+class NotConst(Exception):
+    pass
+
+
+STDLIB_CONSTS = {
+    'calendar.day_abbr': ['Mon', 'Tue', 'Wed', 'Thu', 'Fri', 'Sat', 'Sun'],
+    'calendar.day_name': ['Monday', 'Tuesday', 'Wednesday', 'Thursday', 'Friday', 'Saturday', 'Sunday'],
+    'calendar.month_abbr': ['', 'Jan', 'Feb', 'Mar', 'Apr', 'May', 'Jun', 'Jul', 'Aug', 'Sep', 'Oct', 'Nov', 'Dec'],
+}
+STR_METHODS = {'upper': str.upper, 'lower': str.lower, 'title': str.title, 'strip': str.strip, 'capitalize': str.capitalize}
+
+
+def const_eval(t, env=None):
+    """Python value of a term built from literals, a few stdlib constants, str methods, slices and comprehensions; else NotConst."""
+    env = env or {}
+    h = t[0]
+    if h == 'num':
+        return int(t[1]) if t[1].denominator == 1 else float(t[1])
+    if h == 'str':
+        return t[1]
+    if h == 'const':
+        return {'None': None, 'True': True, 'False': False}.get(t[1], NotConst)
+    if h == 'bv':
+        if t in env:
+            return env[t]
+        raise NotConst(fmt(t))
+    if h in ('tuple', 'list', 'set'):
+        vals = [const_eval(x, env) for x in t[1]]
+        return tuple(vals) if h == 'tuple' else (list(vals) if h == 'list' else set(vals))
+    if h == 'ext' and t[1] in STDLIB_CONSTS:
+        return list(STDLIB_CONSTS[t[1]])
+    if h == 'call' and t[1][0] == 'meth' and t[1][1] in STR_METHODS and len(t[2]) == 1:
+        v = const_eval(t[2][0], env)
+        if isinstance(v, str):
+            return STR_METHODS[t[1][1]](v)
+        raise NotConst(fmt(t))
+    if h == 'call' and t[1] in (('ext', 'LIST'), ('ext', 'TUPLE'), ('ext', 'SET'), ('ext', 'SORTED')) and len(t[2]) == 1 and not t[3]:
+        v = const_eval(t[2][0], env)
+        return {'LIST': list, 'TUPLE': tuple, 'SET': set, 'SORTED': sorted}[t[1][1]](v)
+    if h == 'sub':
+        base = const_eval(t[1], env)
+        i = t[2]
+        if i[0] == 'slice':
+            parts = [None if x is None else const_eval(x, env) for x in i[1:]]
+            return base[slice(*parts)]
+        return base[const_eval(i, env)]
+    if h == 'comp' and t[1] in ('list', 'set', 'gen') and len(t[3]) == 1:
+        tg, it, ifs = t[3][0]
+        seq = const_eval(it, env)
+        out = []
+        for x in seq:
+            e2 = dict(env)
+            if len(tg) == 1:
+                e2[tg[0]] = x
+            else:
+                for b, v in zip(tg, x):
+                    e2[b] = v
+            if all(const_eval(c, e2) for c in ifs):
+                out.append(const_eval(t[2], e2))
+        return set(out) if t[1] == 'set' else out
+    if h == 'rat' and t[1].is_const():
+        c = t[1].const()
+        return int(c) if c.denominator == 1 else float(c)
+    raise NotConst(fmt(t)[:60])
